@@ -260,6 +260,14 @@ fn rewrite(src: &str, self_mod: &str, crate_map: &[(&str, &str)], sync: bool) ->
                 edits.push((t.start, toks[i + 2 * (n - 1)].end, tgt.to_string()));
             }
         }
+        // thread-locals: shuttle's threads are coroutines on one OS thread, std's TLS would be shared
+        if sync && t.text == "thread_local" && next == "!" {
+            if prev != "::" {
+                edits.push((t.start, t.end, "shuttle::thread_local".to_string()));
+            } else if i >= 2 && toks[i - 2].text == "std" {
+                edits.push((toks[i - 2].start, t.end, "shuttle::thread_local".to_string()));
+            }
+        }
         // `crate::` -> `crate::<self_mod>::`   (never `pub(crate)`)
         if !self_mod.is_empty() && t.text == "crate" && next == "::" && prev != "::" {
             edits.push((t.end, t.end, format!("::{self_mod}")));
